@@ -464,7 +464,7 @@ def check(run):
     proofs_ok = run.proofs()
     asan = vlib.build_harness("h_safety", "asan")
     model = vlib.build_model("safety")
-    n = 110 if run.tier == "quick" else 1500
+    n = 300 if run.tier == "quick" else 6000
     if not proofs_ok:
         n *= 10
     cmds = load_corpus() + gen(rng, n)
